@@ -177,8 +177,10 @@ class BaseSQLURLTable(BaseURLTable):
             session.execute(query)
 
             if new_status == Status.done and url_result and url_result.filename:
+                id_subquery = select([QueuedURL.id])\
+                    .where(QueuedURL.url_string_id == subquery).limit(1)
                 query = insert(QueuedFile).prefix_with('OR IGNORE').values({
-                    'queued_url_id': subquery
+                    'queued_url_id': id_subquery
                 })
                 session.execute(query)
 
